@@ -164,7 +164,7 @@ def run_tlc(spec, cfg, wd, env=None, workers=1, simulate=None, depth=None, seed=
     cmd = ["java", "-XX:+UseParallelGC"]
     if heap:
         cmd.append("-Xmx" + heap)
-    cmd += ["-Xss1g", "-DTLA-Library=" + SPEC]
+    cmd += ["-Xss1g", "-DTLA-Library=" + SPEC, "-Djava.io.tmpdir=" + wd]      # (TLC unpacks its standard modules there: gone with the work directory)
     if dfs:
         cmd.append("-Dtlc2.tool.queue.IStateQueue=StateDeque")
     cmd += ["-cp", "/opt/veriftools/tla/tla2tools.jar:/opt/veriftools/tla/CommunityModules-deps.jar", "tlc2.TLC",
